@@ -4,8 +4,8 @@ package props
 // shared by the model-based properties C03, C04, C05, C06, C18, C20.
 
 import (
-	"os"
 	"fmt"
+	"os"
 	"reflect"
 	"strings"
 
